@@ -13,10 +13,17 @@
     `treeOver lang t`  the root is an element and token names are rows of that language's tables
                        (what the XML tree builder produces; a tree built through the API with rows
                        of another language is outside);
-    `opqsDoc d = []`   (only for `Doc.WF`) no OPAQUE token was written — see `enc_is_ser_wf_partial`.
+    `typedLangOk lang` table facts of the typed forms (`main_typedLangOk`);
+    four decidable conditions on the source tree, each a recorded finding, for `Doc.WF` of outputs
+    with typed content (`enc_is_ser_wf`, `decodes_by_spec`: all 29 languages, nothing excluded):
+    `noCdataInTyped` (cdata-in-typed-element), `validDatetimeAttrs` (invalid-datetime-attribute-accepted),
+    `b64TextDecodes` (D5: text that is not base64 becomes an empty OPAQUE), `keyValueTextFirst` (new:
+    DRMREL `ds:KeyValue` text behind a child element) — each with a necessity witness;
+    `opqsDoc d = []`   (only `enc_is_ser_wf_partial`, the output-side variant) no OPAQUE token was written.
 -/
 import Wbxml.Lemmas.EncWConcat
 import Wbxml.Props.C04
+import Wbxml.Props.C12
 import Wbxml.Gen.Tables
 set_option maxRecDepth 100000
 namespace Wbxml.Props.C06
@@ -301,7 +308,9 @@ theorem attr_value_preserved (c : WCfg) (na : Option (List Attr)) (a : Attr) (st
 
 /-! ## Well-formedness and decoding by the specification -/
 
-/-- **`enc_is_ser` with `Doc.WF`**: for EVERY output of a language without typed content
+/-- **`enc_is_ser` with `Doc.WF`, output-side variant** (superseded by `enc_is_ser_wf` below for every
+    tree that satisfies the source hypotheses; kept because its condition is on the OUTPUT and also
+    covers trees outside those hypotheses whose output happens to contain no OPAQUE): for EVERY output of a language without typed content
     (`untypedLang`: all but Wireless Village, DRMREL, SyncML, SI, EMN, OTA — 20 of the 29 entries of
     the main table; binary-flagged elements, CDATA sections and embedded documents included), and
     for the outputs of the other languages that contain no OPAQUE token. `_partial`: the
@@ -344,6 +353,204 @@ theorem decodes_by_spec_partial (cfg : X2WCfg) (t : Tree) (bs : Bytes) (lang : L
   rw [hs]
   exact Props.C04.parse_ser pcfg d (hwf pcfg h1 h2 h3 h4 h5 h6)
 
+/-! ## Typed content: every language, every output — under the recorded findings
+
+  The nine languages with typed content (Wireless Village 1.1/1.2, DRMREL, SyncML 1.0–1.2, SI, EMN,
+  OTA settings) write OPAQUE tokens the parser decodes by a typed rule. The encoder's typed writers
+  and the parser's typed readers agree (C12) on every VALID typed text; where the encoder accepts
+  text that is not valid, or sends an OPAQUE at a place where the parser applies another rule, the
+  output is not well-formed: these are recorded findings, and they are exactly the four decidable
+  hypotheses on the SOURCE tree below (all four hold trivially in a language without typed content).
+
+  * `noCdataInTyped lang false r` — finding **`cdata-in-typed-element`** (C03): no CDATA section and
+    no embedded document inside an element whose opaque content the parser decodes by a typed rule
+    (WV integer / date-time elements, DRMREL `ds:KeyValue`, SyncML `NextNonce`), nor inside a literal
+    (unknown) element below one (the parser keeps its `current_tag` across a literal tag).
+  * `validDatetimeAttrs lang r` — finding **`invalid-datetime-attribute-accepted`** (C03): the value
+    of every SI `created` / `si-expires` and EMN `timestamp` attribute satisfies `validDatetimeText`
+    (its digits give four to seven BCD octets, or none).
+  * `b64TextDecodes c none r` — **D5** of DESIGN_NOTES/EncWbxml.md (the OTA / DRMREL counterpart of
+    `invalid-base64-in-binary-element`; not yet in known_findings.json): text under DRMREL
+    `ds:KeyValue` and the `VALUE` of an OTA `PARM NAME="ICON"` decode (base64, white space removed) to
+    at least one octet — otherwise the encoder writes `C3 00`, which `decode_base64_value` rejects.
+  * `keyValueTextFirst c none true r` — NEW (see `keyvalue_text_after_child_witness`): the text of a
+    DRMREL `ds:KeyValue` precedes its child elements. The encoder types the text by its PARENT, the
+    parser by `current_tag`, which an element end clears: behind a child element the OPAQUE is
+    delivered raw instead of as base64.
+
+  `c = dcfgOf cfg lang` only enters through the white-space options (text that is dropped or
+  trimmed to nothing needs no condition). `typedLangOk lang` is a table fact (`main_typedLangOk`). -/
+
+/-- Table facts of the typed forms (no binary-flagged tag has a typed-content rule; the OTA icon
+    attribute start has no value prefix) hold for every language of the library. -/
+theorem main_typedLangOk : Gen.main.all typedLangOk = true := by decide +kernel
+
+/-- (a) Wireless Village integer elements: an OPAQUE of at most four octets — what
+    `wbxml_encode_wv_integer` writes for every decimal / `0x` numeral below 2^32; any other text is
+    left to the string encoding or refused with error 80 (C12 `wvint_text_never_changes_value`) — is
+    accepted by `decode_wv_integer`, as the decimal numeral of its big-endian value. -/
+theorem wv_integer_opaque_accepted (s item : Bytes) (h : Typed.encodeWvInt s = .ok (some item)) :
+    ∃ p, item = serOpaque p ∧ p.length ≤ 4 ∧
+      decodeWvInteger p = .ok (natDigits (Lemmas.Typed.beNat p)) := by
+  obtain ⟨p, hp, hlen⟩ := encodeWvInt_shape' s item h
+  exact ⟨p, hp, hlen, decodeWvInteger_le4 p hlen⟩
+
+/-- … by value: the numeral denotes `v < 2^32`, the octets are the minimal big-endian form of `v`,
+    and the parser delivers the NORMAL FORM of the text, `wvIntNorm s` = the decimal numeral of `v`
+    without leading zeros (`0200` and `0xC8` come back as `200`); `wvIntNorm` is idempotent. -/
+theorem wv_integer_by_value (s : Bytes) (v : Nat) (hn : Typed.wvIntNumeral s = some v) (hv : v < 2 ^ 32) :
+    Typed.encodeWvInt s = .ok (some (serOpaque (Typed.wvIntOctets v))) ∧
+    decodeWvInteger (Typed.wvIntOctets v) = .ok (wvIntNorm s) ∧ wvIntNorm s = Typed.decNat v ∧
+    wvIntNorm (wvIntNorm s) = wvIntNorm s := by
+  have hv' : v < 4294967296 := hv
+  have hlen := (Lemmas.Typed.wvIntOctets_minimal v hv').1
+  have hnorm : wvIntNorm s = Typed.decNat v := by simp only [wvIntNorm, hn, hv', ↓reduceIte]
+  refine ⟨?_, ?_, hnorm, wvIntNorm_idem s⟩
+  · have : ¬ v > 0xFFFFFFFF := by omega
+    simp only [Typed.encodeWvInt, hn, this, ↓reduceIte]
+    rw [opaqueItem_eq]; omega
+  · rw [decodeWvInteger_le4 _ hlen, Lemmas.Typed.beNat_wvIntOctets v hv', natDigits_eq_decNat, hnorm]
+
+/-- (b) Wireless Village date-time elements: the item is the inline string itself (zone `Z`, the
+    extended format, years above 4095) or an OPAQUE of exactly six octets, which
+    `decode_wv_datetime` accepts. -/
+theorem wv_datetime_item_accepted (s : Bytes) (item : Typed.WvItem) (h : Typed.encodeWvDate s = .ok item) :
+    item.bytes = serStr (.inl s) ∨ ∃ p b, item.bytes = serOpaque p ∧ p.length = 6 ∧ decodeWvDatetime p = .ok b := by
+  rcases encodeWvDate_shape' s item h with h | ⟨p, hp, hlen⟩
+  · exact Or.inl h
+  · obtain ⟨b, hb⟩ := decodeWvDatetime_len6 p hlen
+    exact Or.inr ⟨p, b, hp, hlen, hb⟩
+
+/-- … by value (C12 `wvdate_roundtrip` through `decodeWvDatetime_eq_typed`): for every valid calendar
+    date-time (years 0000–9999) and every zone designator, the text `YYYYMMDDThhmmss<zone>` goes out
+    as the string itself or as a six-octet OPAQUE, and what the parser delivers reads as the SAME
+    date-time and zone (zero seconds may be omitted in the delivered text). -/
+theorem wv_datetime_by_value (d : Spec.Calendar.DateTime) (h : d.Valid) (z : UInt8)
+    (hz : Spec.Calendar.isZone z = true) :
+    ∃ item text, Typed.encodeWvDate (Spec.Calendar.basic d (some z)) = .ok item ∧
+      (match item with
+        | .inline s => s = text
+        | .opaque p => decodeWvDatetime p = .ok text) ∧
+      Spec.Calendar.readBasic text = some (d, some z) := by
+  obtain ⟨item, text, h1, h2, h3⟩ := Props.C12.wvdate_roundtrip d h z hz
+  refine ⟨item, text, h1, ?_, h3⟩
+  cases item with
+  | inline s => simp only [Typed.decodeWvDateItem] at h2; injection h2
+  | «opaque» p =>
+    simp only [Typed.decodeWvDateItem] at h2
+    show decodeWvDatetime p = .ok text
+    rw [decodeWvDatetime_eq_typed]; exact h2
+
+/-- (c) SI `created` / `si-expires`, EMN `timestamp`: for text that satisfies `validDatetimeText`
+    the OPAQUE `wbxml_encode_datetime` writes is empty or is accepted by `decode_datetime`. -/
+theorem datetime_opaque_accepted (s item : Bytes) (hs : s.length < 2 ^ 32) (hv : validDatetimeText s = true)
+    (h : Typed.encodeDatetime s = .ok item) :
+    ∃ p, item = serOpaque p ∧ (p = [] ∨ ∃ b, Model.decodeDatetime p = .ok b) := by
+  obtain ⟨p, hp, hpay, _⟩ := encodeDatetime_shape' s item hs h
+  refine ⟨p, hp, ?_⟩
+  simp only [validDatetimeText, hpay, Bool.or_eq_true, Bool.and_eq_true, decide_eq_true_eq, List.isEmpty_iff] at hv
+  rcases hv with hv | hv
+  · exact Or.inl hv
+  · exact Or.inr (decodeDatetime_len p hv.1 hv.2)
+
+/-- … and every canonical date-time `YYYY-MM-DDThh:mm:ssZ` of a valid calendar date (C12
+    `datetime_payload_is_bcd`: four to seven octets) satisfies the hypothesis. -/
+theorem validDatetimeText_canon (d : Spec.Calendar.DateTime) (h : d.Valid) :
+    validDatetimeText (Spec.Calendar.canon d) = true := by
+  have := Props.C12.datetime_payload_is_bcd d h
+  simp only [validDatetimeText, this.1, List.length_take, Bool.or_eq_true, Bool.and_eq_true, decide_eq_true_eq]
+  have hl : (Spec.Calendar.bcd7 d).length = 7 := by simp [Spec.Calendar.bcd7]
+  rw [hl]
+  right
+  omega
+
+/-- (d) base64-carried content (DRMREL `ds:KeyValue`, OTA `ICON`, SyncML `NextNonce`): a non-empty
+    OPAQUE is accepted by `decode_base64_value` and delivered as the RFC 4648 encoding of its octets
+    — the canonical re-encoding of the source text (white space and line wrapping gone). -/
+theorem base64_opaque_accepted (p : Bytes) (h : p ≠ []) :
+    decodeBase64Value p = .ok (Spec.Rfc4648.encode p) := decodeBase64Value_spec p h
+
+/-- … by value: the parser delivers the normal form `b64Norm s` of the source text `s` — the RFC 4648
+    encoding of the octets the text denotes once its white space is removed; `b64Norm` is idempotent. -/
+theorem base64_by_value (s d : Bytes) (hd : Codec.b64DecodeE (b64TextW s) = .ok d) (hne : d ≠ []) :
+    decodeBase64Value d = .ok (b64Norm s) ∧ b64Norm s = Spec.Rfc4648.encode d ∧ b64Norm (b64Norm s) = b64Norm s := by
+  have hn : b64Norm s = Spec.Rfc4648.encode d := by
+    simp only [b64Norm, hd, (Props.C11.b64_encode_eq_rfc4648 d).2]
+  exact ⟨by rw [hn]; exact decodeBase64Value_spec d hne, hn, b64Norm_idem s⟩
+
+/-- (c) by value: whenever the parser accepts the OPAQUE written for the text `s`, it delivers
+    `datetimeNorm s`; for the canonical text of every valid calendar date-time (years 0000–9999) that
+    is the text itself (C12 `datetime_roundtrip` through `decodeDatetime_eq_typed`), so the normal form
+    is the identity — in particular idempotent — on valid canonical date-times. -/
+theorem datetime_by_value (s p t : Bytes) (hp : Typed.datetimePayload s = .ok p) (ht : Model.decodeDatetime p = .ok t) :
+    datetimeNorm s = t := by
+  simp only [datetimeNorm, hp, ht]
+
+theorem datetime_by_value_canon (d : Spec.Calendar.DateTime) (h : d.Valid) :
+    ∃ p, Typed.datetimePayload (Spec.Calendar.canon d) = .ok p ∧
+      Model.decodeDatetime p = .ok (Spec.Calendar.canon d) ∧
+      datetimeNorm (Spec.Calendar.canon d) = Spec.Calendar.canon d := by
+  have hk := Lemmas.Typed.keptOctets_range d
+  have hl : ((Spec.Calendar.bcd7 d).take (Spec.Calendar.keptOctets d)).length = Spec.Calendar.keptOctets d := by
+    have : (Spec.Calendar.bcd7 d).length = 7 := by simp [Spec.Calendar.bcd7]
+    rw [List.length_take, this]; omega
+  refine ⟨_, Lemmas.Typed.datetimePayload_canon d h, ?_, datetimeNorm_canon d h⟩
+  rw [decodeDatetime_eq_typed _ (by rw [hl]; exact hk.1) (by rw [hl]; exact hk.2),
+    Lemmas.Typed.decodeDatetime_take d h _ hk, Lemmas.Typed.truncTo_kept]
+
+/-- **`enc_is_ser` with `Doc.WF`, all 29 languages, typed content included.** For every tree whose
+    root is an element over its language and which satisfies the four source hypotheses (each a
+    recorded finding — see the section comment): the output is `Spec.ser d` of a document that is
+    WELL-FORMED for every reader configuration `pcfg` under which the header selects the tree's
+    language and a deliverable character set. No language and no typed form is excluded. -/
+theorem enc_is_ser_wf (cfg : X2WCfg) (t : Tree) (bs : Bytes) (lang : Lang) (r : Node)
+    (hlang : t.lang = some lang) (hroot : t.root = some r)
+    (hl : langOk lang = true) (htl : typedLangOk lang = true) (hover : treeOver lang t = true)
+    (h : treeToWbxml cfg t = .ok bs)
+    (hcdata : noCdataInTyped lang false r = true)
+    (hdt : validDatetimeAttrs lang r = true)
+    (hb64 : b64TextDecodes (dcfgOf cfg lang) none r = true)
+    (hkv : keyValueTextFirst (dcfgOf cfg lang) none true r = true) :
+    ∃ d : Doc, bs = Spec.ser d ∧
+      ∀ pcfg : PCfg, headerLang pcfg d.hdr = some lang →
+        (headerCharset pcfg d.hdr = 3 ∨ headerCharset pcfg d.hdr = 106) →
+        pcfg.charsets.contains (headerCharset pcfg d.hdr) = true →
+        cfg.version < 256 → bs.length < 4294967296 → d.WF pcfg := by
+  obtain ⟨r', d, st, hr', hres⟩ := treeToWbxml_doc cfg t bs lang hlang hl hover h
+  rw [hroot] at hr'; injection hr' with hr'; subst hr'
+  exact ⟨d, hres.ser, fun pcfg h1 h2 h3 h4 h5 => hres.wfTyped hl htl hcdata hdt hb64 hkv pcfg h1 h2 h3 h4 h5⟩
+
+/-- **"Decoding those bytes strictly by the specification"**, all languages, typed content
+    included: with `parse_ser` (C04) the parser model accepts the encoder's output and delivers
+    exactly the events the specification assigns to the document the encoder wrote. -/
+theorem decodes_by_spec (cfg : X2WCfg) (t : Tree) (bs : Bytes) (lang : Lang) (r : Node)
+    (hlang : t.lang = some lang) (hroot : t.root = some r)
+    (hl : langOk lang = true) (htl : typedLangOk lang = true) (hover : treeOver lang t = true)
+    (h : treeToWbxml cfg t = .ok bs)
+    (hcdata : noCdataInTyped lang false r = true)
+    (hdt : validDatetimeAttrs lang r = true)
+    (hb64 : b64TextDecodes (dcfgOf cfg lang) none r = true)
+    (hkv : keyValueTextFirst (dcfgOf cfg lang) none true r = true) :
+    ∃ d : Doc, bs = Spec.ser d ∧
+      ∀ pcfg : PCfg, headerLang pcfg d.hdr = some lang →
+        (headerCharset pcfg d.hdr = 3 ∨ headerCharset pcfg d.hdr = 106) →
+        pcfg.charsets.contains (headerCharset pcfg d.hdr) = true →
+        cfg.version < 256 → bs.length < 4294967296 →
+        (parse pcfg bs).result = .ok () ∧ (parse pcfg bs).events = Spec.events pcfg d := by
+  obtain ⟨d, hs, hwf⟩ := enc_is_ser_wf cfg t bs lang r hlang hroot hl htl hover h hcdata hdt hb64 hkv
+  refine ⟨d, hs, fun pcfg h1 h2 h3 h4 h5 => ?_⟩
+  rw [hs]
+  exact Props.C04.parse_ser pcfg d (hwf pcfg h1 h2 h3 h4 h5)
+
+/-- In a language without typed content (20 of the 29) the four hypotheses hold for EVERY tree: there
+    `enc_is_ser_wf` is `enc_is_ser_wf_partial`'s second alternative. -/
+theorem typed_hyps_untyped (cfg : X2WCfg) (lang : Lang) (r : Node) (hu : untypedLang lang.id = true) :
+    noCdataInTyped lang false r = true ∧ validDatetimeAttrs lang r = true ∧
+    b64TextDecodes (dcfgOf cfg lang) none r = true ∧ keyValueTextFirst (dcfgOf cfg lang) none true r = true := by
+  have := untyped_node (dcfgOf cfg lang) (by rw [dcfgOf_lang]; exact hu) r none true
+  rw [dcfgOf_lang] at this
+  exact this
+
 /-! ## The specification's reading of the output is the source document -/
 
 /-- The table facts of the source view hold for every language but ActiveSync (two names share a
@@ -362,9 +569,14 @@ theorem main_attrNameSemOk : Gen.main.all attrNameSemOk = true := by decide +ker
     the same attributes with the same values in the same order (none for a language without
     attribute table), and the same character data octet for octet after `normText` (white-space
     handling, C-string reading, SyncML media-type rewriting) — independent of string table,
-    version and anonymity. `_partial`: CDATA / embedded documents / typed content (C12) / the
-    ActiveSync alias are outside; the tree-level statement `treeOfWbxml … = norm t` additionally
-    needs the builder's merging of adjacent character data. -/
+    version and anonymity. `_partial`: CDATA / embedded documents / the ActiveSync alias are outside,
+    and so is typed content AT THE LEVEL OF THE WHOLE VIEW: for typed content `decodes_by_spec` gives
+    "events = `Spec.events d`" for all 29 languages, and the per-form laws `wv_integer_by_value`,
+    `wv_datetime_by_value`, `datetime_by_value(_canon)`, `base64_by_value` say what text comes back
+    (the normal forms `wvIntNorm`, `datetimeNorm`, `b64Norm`, each idempotent), but they are not yet
+    threaded through `srcToks` (the view of a typed text depends on `current_tag`, i.e. on the
+    position — `srcToks` is position-free). The tree-level statement `treeOfWbxml … = norm t`
+    additionally needs the builder's merging of adjacent character data (C03). -/
 theorem denotes_source_partial (cfg : X2WCfg) (t : Tree) (bs : Bytes) (lang : Lang) (r : Node)
     (hlang : t.lang = some lang) (hroot : t.root = some r)
     (hl : langOk lang = true) (hover : treeOver lang t = true) (h : treeToWbxml cfg t = .ok bs)
@@ -449,5 +661,182 @@ example : ((match treeToWbxml {} exDdf with | .ok bs => bs | .error _ => []).tak
       [0x03, 0x00, 0x02, 0x6A, 0x1D]) ∧
     ((match treeToWbxml { anonymous := true } exDdf with | .ok bs => bs | .error _ => []) =
       [0x03, 0x01, 0x6A, 0x02, 0x78, 0x00, 0x04, 0x00]) := by decide +kernel
+
+/-! ### Non-vacuity of the typed theorems, and necessity of each hypothesis -/
+
+/-- The reader configuration of the library (main table, nothing forced). -/
+def exPc : PCfg := { main := Gen.main }
+
+def outOf (cfg : X2WCfg) (t : Tree) : Bytes := match treeToWbxml cfg t with | .ok bs => bs | .error _ => []
+
+/-- The `WBXMLError` a run ended with (0 = `WBXML_OK`). -/
+def errOf (r : Except Err Unit) : Nat := match r with | .ok _ => 0 | .error (.code n) => n | .error _ => 1000
+
+/-- Wireless Village 1.1: `<WV-CSP-Message><Code>…</Code></WV-CSP-Message>` (`Code` is an integer element). -/
+def exWvRoot (kids : List Node) : Node :=
+  .elt (.token ⟨b!"WV-CSP-Message", 0, 9, 0⟩) [] [.elt (.token ⟨b!"Code", 0, 11, 0⟩) [] kids]
+def exWv (kids : List Node) : Tree := { lang := some Gen.lang24, origCharset := 106, root := some (exWvRoot kids) }
+
+/-- `<Code>0200</Code>`: all hypotheses of `enc_is_ser_wf` hold … -/
+example : langOk Gen.lang24 = true ∧ typedLangOk Gen.lang24 = true ∧ treeOver Gen.lang24 (exWv [.text b!"0200"]) = true ∧
+    noCdataInTyped Gen.lang24 false (exWvRoot [.text b!"0200"]) = true ∧
+    validDatetimeAttrs Gen.lang24 (exWvRoot [.text b!"0200"]) = true ∧
+    b64TextDecodes (dcfgOf {} Gen.lang24) none (exWvRoot [.text b!"0200"]) = true ∧
+    keyValueTextFirst (dcfgOf {} Gen.lang24) none true (exWvRoot [.text b!"0200"]) = true := by decide +kernel
+
+/-- … the integer goes out as the one-octet OPAQUE `C8` (= 200), the parser accepts the document
+    and delivers the decimal numeral `200`. -/
+example : outOf {} (exWv [.text b!"0200"]) = [0x03, 0x10, 0x6A, 0x00, 0x49, 0x4B, 0xC3, 0x01, 0xC8, 0x01, 0x01] ∧
+    (parse exPc (outOf {} (exWv [.text b!"0200"]))).result.toBool = true ∧
+    Event.chars b!"200" ∈ (parse exPc (outOf {} (exWv [.text b!"0200"]))).events := by decide +kernel
+
+
+/-- The hypotheses of `enc_is_ser_wf` / `decodes_by_spec` as one decidable statement. -/
+def typedHyps (cfg : X2WCfg) (lang : Lang) (r : Node) : Bool :=
+  noCdataInTyped lang false r && validDatetimeAttrs lang r && b64TextDecodes (dcfgOf cfg lang) none r &&
+  keyValueTextFirst (dcfgOf cfg lang) none true r
+
+/-- Text that is no numeral is left to the string encoding (no OPAQUE, nothing to check). -/
+example : outOf {} (exWv [.text b!"abc"]) = [0x03, 0x10, 0x6A, 0x00, 0x49, 0x4B, 0x03, 0x61, 0x62, 0x63, 0x00, 0x01, 0x01] := by
+  decide +kernel
+
+/-- SI 1.0: `<si><indication created="…"/></si>`. -/
+def exSiRoot (v : Bytes) : Node :=
+  .elt (.token ⟨b!"si", 0, 5, 0⟩) [] [.elt (.token ⟨b!"indication", 0, 6, 0⟩) [⟨.token ⟨b!"created", none, 0, 10⟩, v⟩] []]
+def exSi (v : Bytes) : Tree := { lang := some Gen.lang8, origCharset := 106, root := some (exSiRoot v) }
+
+/-- `created="1999-06-25T15:23:15Z"`: the hypotheses hold, the value goes out as the seven BCD octets
+    `19 99 06 25 15 23 15`, the parser accepts the document and delivers the same text. -/
+example : langOk Gen.lang8 = true ∧ typedLangOk Gen.lang8 = true ∧
+    treeOver Gen.lang8 (exSi (b!"1999-06-25T15:23:15Z" ++ [0])) = true ∧
+    typedHyps {} Gen.lang8 (exSiRoot (b!"1999-06-25T15:23:15Z" ++ [0])) = true ∧
+    outOf {} (exSi (b!"1999-06-25T15:23:15Z" ++ [0])) =
+      [0x03, 0x05, 0x6A, 0x00, 0x45, 0x86, 0x0A, 0xC3, 0x07, 0x19, 0x99, 0x06, 0x25, 0x15, 0x23, 0x15, 0x01, 0x01] ∧
+    (parse exPc (outOf {} (exSi (b!"1999-06-25T15:23:15Z" ++ [0])))).result.toBool = true ∧
+    Event.startElt (.token ⟨b!"indication", 0, 6, 0⟩) [⟨.token ⟨b!"created", none, 0, 10⟩, b!"1999-06-25T15:23:15Z" ++ [0]⟩] ∈
+      (parse exPc (outOf {} (exSi (b!"1999-06-25T15:23:15Z" ++ [0])))).events := by decide +kernel
+
+/-- ActiveSync: `<ConversationId>` is binary-flagged (code page 15): the raw octets go out as one
+    OPAQUE, which no typed rule touches. -/
+def exAsRoot (s : Bytes) : Node := .elt (.token ⟨b!"ConversationId", 15, 32, 1⟩) [] [.text s]
+def exAs (s : Bytes) : Tree := { lang := some Gen.lang27, origCharset := 106, root := some (exAsRoot s) }
+
+example : langOk Gen.lang27 = true ∧ typedLangOk Gen.lang27 = true ∧ treeOver Gen.lang27 (exAs [1, 2, 3, 0, 255]) = true ∧
+    typedHyps {} Gen.lang27 (exAsRoot [1, 2, 3, 0, 255]) = true ∧
+    (outOf {} (exAs [1, 2, 3, 0, 255])).drop 38 = [0x00, 0x0F, 0x60, 0xC3, 0x05, 1, 2, 3, 0, 255, 0x01] ∧
+    (parse exPc (outOf {} (exAs [1, 2, 3, 0, 255]))).result.toBool = true ∧
+    Event.chars [1, 2, 3, 0, 255] ∈ (parse exPc (outOf {} (exAs [1, 2, 3, 0, 255]))).events := by decide +kernel
+
+/-- Wireless Village date-time (zone `A`): six-octet OPAQUE, accepted. -/
+def exWvDtRoot : Node :=
+  .elt (.token ⟨b!"WV-CSP-Message", 0, 9, 0⟩) [] [.elt (.token ⟨b!"DateTime", 0, 17, 0⟩) [] [.text b!"20010925T134000A"]]
+
+example : typedHyps {} Gen.lang24 exWvDtRoot = true ∧
+    outOf {} { lang := some Gen.lang24, origCharset := 106, root := some exWvDtRoot } =
+      [0x03, 0x10, 0x6A, 0x00, 0x49, 0x51, 0xC3, 0x06, 0x1F, 0x46, 0x72, 0xDA, 0x00, 0x41, 0x01, 0x01] ∧
+    (parse exPc (outOf {} { lang := some Gen.lang24, origCharset := 106, root := some exWvDtRoot })).result.toBool = true := by
+  decide +kernel
+
+/-- DRMREL `<ds:KeyValue>QUJD</ds:KeyValue>`: OPAQUE `ABC`, delivered as `QUJD`. -/
+def exDrmRoot (kids : List Node) : Node :=
+  .elt (.token ⟨b!"o-ex:rights", 0, 5, 0⟩) [] [.elt (.token ⟨b!"ds:KeyValue", 0, 12, 0⟩) [] kids]
+def exDrm (kids : List Node) : Tree := { lang := some Gen.lang13, origCharset := 106, root := some (exDrmRoot kids) }
+
+example : langOk Gen.lang13 = true ∧ typedLangOk Gen.lang13 = true ∧ typedHyps {} Gen.lang13 (exDrmRoot [.text b!"QUJD"]) = true ∧
+    outOf {} (exDrm [.text b!"QUJD"]) = [0x03, 0x0E, 0x6A, 0x00, 0x45, 0x4C, 0xC3, 0x03, 0x41, 0x42, 0x43, 0x01, 0x01] ∧
+    Event.chars b!"QUJD" ∈ (parse exPc (outOf {} (exDrm [.text b!"QUJD"]))).events := by decide +kernel
+
+/-! #### Each hypothesis is necessary
+
+  In every witness the tree is over its language, the encoder SUCCEEDS, and all hypotheses but the
+  one named hold — yet the parser model refuses the output (or delivers other text), so the
+  conclusion of `decodes_by_spec` fails. -/
+
+/-- `cdata-in-typed-element`: `<Code><![CDATA[12345]]></Code>` is sent as the five-octet OPAQUE
+    `31 32 33 34 35`, which `decode_wv_integer` refuses (error 80: overflow); with two characters
+    (`98`) it would be accepted — and read as 14648. -/
+theorem cdata_in_typed_witness :
+    treeOver Gen.lang24 (exWv [.cdata [.text b!"12345"]]) = true ∧
+    noCdataInTyped Gen.lang24 false (exWvRoot [.cdata [.text b!"12345"]]) = false ∧
+    validDatetimeAttrs Gen.lang24 (exWvRoot [.cdata [.text b!"12345"]]) = true ∧
+    b64TextDecodes (dcfgOf {} Gen.lang24) none (exWvRoot [.cdata [.text b!"12345"]]) = true ∧
+    keyValueTextFirst (dcfgOf {} Gen.lang24) none true (exWvRoot [.cdata [.text b!"12345"]]) = true ∧
+    outOf {} (exWv [.cdata [.text b!"12345"]]) =
+      [0x03, 0x10, 0x6A, 0x00, 0x49, 0x4B, 0xC3, 0x05, 0x31, 0x32, 0x33, 0x34, 0x35, 0x01, 0x01] ∧
+    errOf (parse exPc (outOf {} (exWv [.cdata [.text b!"12345"]]))).result = 80 ∧
+    Event.chars b!"14648" ∈ (parse exPc (outOf {} (exWv [.cdata [.text b!"98"]]))).events := by decide +kernel
+
+/-- EMN 1.0: `<emn timestamp="…"/>`. -/
+def exEmnRoot (v : Bytes) : Node := .elt (.token ⟨b!"emn", 0, 5, 0⟩) [⟨.token ⟨b!"timestamp", none, 0, 5⟩, v⟩] []
+def exEmn (v : Bytes) : Tree := { lang := some Gen.lang12, origCharset := 106, root := some (exEmnRoot v) }
+
+/-- `invalid-datetime-attribute-accepted`: `timestamp="12"` is accepted and sent as the one-octet
+    OPAQUE `12`, which `decode_datetime` refuses (error 11); `timestamp="1"` (the recorded example) is
+    sent as the EMPTY opaque, which the parser accepts — and delivers as the empty value. -/
+theorem invalid_datetime_witness :
+    treeOver Gen.lang12 (exEmn (b!"12" ++ [0])) = true ∧
+    noCdataInTyped Gen.lang12 false (exEmnRoot (b!"12" ++ [0])) = true ∧
+    validDatetimeAttrs Gen.lang12 (exEmnRoot (b!"12" ++ [0])) = false ∧
+    b64TextDecodes (dcfgOf {} Gen.lang12) none (exEmnRoot (b!"12" ++ [0])) = true ∧
+    keyValueTextFirst (dcfgOf {} Gen.lang12) none true (exEmnRoot (b!"12" ++ [0])) = true ∧
+    outOf {} (exEmn (b!"12" ++ [0])) = [0x03, 0x0D, 0x6A, 0x00, 0x85, 0x05, 0xC3, 0x01, 0x12, 0x01] ∧
+    errOf (parse exPc (outOf {} (exEmn (b!"12" ++ [0])))).result = 11 ∧
+    outOf {} (exEmn (b!"1" ++ [0])) = [0x03, 0x0D, 0x6A, 0x00, 0x85, 0x05, 0xC3, 0x00, 0x01] ∧
+    Event.startElt (.token ⟨b!"emn", 0, 5, 0⟩) [⟨.token ⟨b!"timestamp", none, 0, 5⟩, []⟩] ∈
+      (parse exPc (outOf {} (exEmn (b!"1" ++ [0])))).events := by decide +kernel
+
+/-- D5 (not base64 ⇒ empty OPAQUE): `<ds:KeyValue>!!!!</ds:KeyValue>` is accepted by the encoder and
+    sent as `C3 00`, which `decode_base64_value` refuses (error 18, `WBXML_ERROR_B64_ENC`). -/
+theorem b64_empty_opaque_witness :
+    treeOver Gen.lang13 (exDrm [.text b!"!!!!"]) = true ∧
+    noCdataInTyped Gen.lang13 false (exDrmRoot [.text b!"!!!!"]) = true ∧
+    validDatetimeAttrs Gen.lang13 (exDrmRoot [.text b!"!!!!"]) = true ∧
+    b64TextDecodes (dcfgOf {} Gen.lang13) none (exDrmRoot [.text b!"!!!!"]) = false ∧
+    keyValueTextFirst (dcfgOf {} Gen.lang13) none true (exDrmRoot [.text b!"!!!!"]) = true ∧
+    outOf {} (exDrm [.text b!"!!!!"]) = [0x03, 0x0E, 0x6A, 0x00, 0x45, 0x4C, 0xC3, 0x00, 0x01, 0x01] ∧
+    errOf (parse exPc (outOf {} (exDrm [.text b!"!!!!"]))).result = 18 := by decide +kernel
+
+/-- … the same for the `VALUE` of an OTA settings `PARM NAME="ICON"` (language forced: OTA documents
+    carry the "unknown" public identifier). -/
+def exOtaRoot (v : Bytes) : Node :=
+  .elt (.token ⟨b!"CHARACTERISTIC-LIST", 0, 5, 0⟩) [] [.elt (.token ⟨b!"PARM", 0, 7, 0⟩)
+    [⟨.token ⟨b!"NAME", none, 0, 16⟩, b!"ICON" ++ [0]⟩, ⟨.token ⟨b!"VALUE", none, 0, 17⟩, v⟩] []]
+def exOta (v : Bytes) : Tree := { lang := some Gen.lang14, origCharset := 106, root := some (exOtaRoot v) }
+
+theorem ota_icon_witness :
+    typedHyps {} Gen.lang14 (exOtaRoot (b!"QUJD" ++ [0])) = true ∧
+    (parse { main := Gen.main, langForced := 1901 } (outOf {} (exOta (b!"QUJD" ++ [0])))).result.toBool = true ∧
+    b64TextDecodes (dcfgOf {} Gen.lang14) none (exOtaRoot (b!"!!" ++ [0])) = false ∧
+    (outOf {} (exOta (b!"!!" ++ [0]))).drop 13 = [0x11, 0xC3, 0x00, 0x01, 0x01] ∧
+    errOf (parse { main := Gen.main, langForced := 1901 } (outOf {} (exOta (b!"!!" ++ [0])))).result = 18 := by
+  decide +kernel
+
+/-- The document the encoder writes for `<ds:KeyValue><o-dd:uid/>QUJD</ds:KeyValue>`. -/
+def exKvDoc : Doc where
+  hdr := { version := 3, pubid := .num 14, charset := 106, strtbl := [] }
+  pre := []
+  post := []
+  root := .mk none (.tok 0x05) [] (some [.elem (.mk none (.tok 0x0C) [] (some [
+    .elem (.mk none (.tok 0x08) [] none), .opaque b!"ABC"]))])
+
+/-- NEW defect candidate (`keyValueTextFirst`): text of a DRMREL `ds:KeyValue` BEHIND a child element
+    is still base64-decoded by the encoder (which looks at the parent element), but the parser has
+    cleared `current_tag` at the child's end tag and delivers the three octets `ABC` raw: the source
+    text `QUJD` comes back as `ABC` (first child: `QUJD`, see the example above). The encoder
+    succeeds, the parser succeeds, every other hypothesis holds, and the document written is not
+    well-formed in the strict reading. -/
+theorem keyvalue_text_after_child_witness :
+    treeOver Gen.lang13 (exDrm [.elt (.token ⟨b!"o-dd:uid", 0, 8, 0⟩) [] [], .text b!"QUJD"]) = true ∧
+    noCdataInTyped Gen.lang13 false (exDrmRoot [.elt (.token ⟨b!"o-dd:uid", 0, 8, 0⟩) [] [], .text b!"QUJD"]) = true ∧
+    validDatetimeAttrs Gen.lang13 (exDrmRoot [.elt (.token ⟨b!"o-dd:uid", 0, 8, 0⟩) [] [], .text b!"QUJD"]) = true ∧
+    b64TextDecodes (dcfgOf {} Gen.lang13) none (exDrmRoot [.elt (.token ⟨b!"o-dd:uid", 0, 8, 0⟩) [] [], .text b!"QUJD"]) = true ∧
+    keyValueTextFirst (dcfgOf {} Gen.lang13) none true
+      (exDrmRoot [.elt (.token ⟨b!"o-dd:uid", 0, 8, 0⟩) [] [], .text b!"QUJD"]) = false ∧
+    outOf {} (exDrm [.elt (.token ⟨b!"o-dd:uid", 0, 8, 0⟩) [] [], .text b!"QUJD"]) = Spec.ser exKvDoc ∧
+    ¬ exKvDoc.WF exPc ∧
+    (parse exPc (Spec.ser exKvDoc)).result.toBool = true ∧
+    Event.chars b!"QUJD" ∈ Spec.events exPc exKvDoc ∧
+    Event.chars b!"ABC" ∈ (parse exPc (Spec.ser exKvDoc)).events ∧
+    Event.chars b!"QUJD" ∉ (parse exPc (Spec.ser exKvDoc)).events := by decide +kernel
 
 end Wbxml.Props.C06
